@@ -392,7 +392,9 @@ def classify (st : State) (sp : Store) (tn : Taints) (op : Op) (exp got : Resp) 
     if n < 1 ∨ n > 10000 then (5, "fs:part-number-not-validated") else (5, "fs:part-copy-range-unchecked")
   | .uploadPartCopy .., .err .NoSuchBucket, .err .NoSuchKey => (2, "fs:missing-bucket-reported-as-missing-key")
   | .completeMultipartUpload _ _ k .., _, .err .InvalidArgument =>
-    if !keyOk k then (5, "fs:create-upload-not-validated") else shapeOr generic
+    -- a key the backend does not admit at all ('.', '..': keys are paths to it) is refused before anything else is looked at
+    -- (since 1d0f501 also by create_multipart_upload): the family of `fs:key-normalised`
+    if !keyOk k then (5, "fs:key-normalised") else shapeOr generic
   | .completeMultipartUpload .., .err .MalformedXML, _ => (4, "fs:complete-part-list-validation")
   | .completeMultipartUpload .., .err .InvalidPartOrder, _ => (4, "fs:complete-part-list-validation")
   | .completeMultipartUpload .., .err .InvalidPart, .err .InternalError => (5, "fs:complete-missing-part-internal-error")
